@@ -39,6 +39,7 @@ def gen_diagram(rng):
             rel.add((a, b))
     lines = []
     declared = set()
+    alias2 = {}
     for c in comps:
         has_alias = c in alias
         # aliased components must be declared; others are declared with probability 1/2
@@ -53,11 +54,15 @@ def gen_diagram(rng):
                 line += f" as {alias[c]}"
             lines.append(line)
             declared.add(c)
+            if has_alias and free and rng.random() < 0.2:
+                # the same component declared a second time under ANOTHER alias: both aliases stand for it
+                alias2[c] = free.pop()
+                lines.append(f"{rng.choice(['', 'component '])}[{c}] as {alias2[c]}")
 
     def ref(c):
-        forms = ["[n]", "n"] + (["alias"] if c in alias else [])
+        forms = ["[n]", "n"] + (["alias"] if c in alias else []) + (["alias2", "alias"] if c in alias2 else [])
         f = rng.choice(forms)
-        return f"[{c}]" if f == "[n]" else c if f == "n" else alias[c]
+        return f"[{c}]" if f == "[n]" else c if f == "n" else alias2[c] if f == "alias2" else alias[c]
     for a, b in sorted(rel):
         arrow = rng.choice(["-->", "->", "<--", "<-", "-uses->", "<-used_by-"])
         if arrow.startswith("<"):
